@@ -172,3 +172,14 @@ claim("C07",
       "correspondence run (C07_no_crash is not a Coq theorem); draining is C05's liveness. " + _EXEC,
       "Coq proof (ledger coupling) + in-Coq differential correspondence with cancel injection",
       "DESIGN.md 5/C07, 10", "C07_no_crash (adapter return shapes) is checked at run time, not proved.")
+claim("C15",
+      "Coq theorems over regenerated header templates/flags (T-data from the four adapters) and executable header/launcher models, for every "
+      "batch block and step inside the decidable domain H15: the monitor C15_ok (directive readers written from the schedulers' documented "
+      "option syntax applied to the generated script give back exactly the effective resources - both directions, each key at most once; no "
+      "launcher token survives and each replacement reads back to the requested tasks/nodes; over-allocation rejected with a diagnostic and "
+      "only then; local steps unscheduled with shebang + command verbatim; never an internal error) holds on the model for Slurm, LSF "
+      "(incl. the H:M:S walltime conversion), Flux and Local; three known findings are refuted by witnesses. Tie: templates and regex texts "
+      "regenerated from source; the real write_script of the four adapters on exhaustive small scopes + generated cases compared with the "
+      "model and judged by the same monitor inside Coq.",
+      "Coq proof (printer/reader round trips over regenerated templates, token scanner) + in-Coq differential correspondence with write_script",
+      "DESIGN.md 5/C15, 10")
